@@ -14,8 +14,13 @@ fn apdu_of(class: u8, instr: u8, body: &[u8]) -> Vec<u8> {
 
 /// One parse: enum `en`, control field, body. `owned` = Some((variant, packet type)) from the independent table.
 pub fn check_parse(en: &EnumEntry, tys: &[TypeEntry], owned: Option<(&str, &str)>, class: u8, instr: u8, body: &[u8]) -> CheckResult {
-    let bytes = apdu_of(class, instr, body);
-    let input = json!({"enum": en.name, "class": class, "instr": instr, "body": hex(body)});
+    check_parse_trailing(en, tys, owned, class, instr, body, &[])
+}
+/// `trailing`: bytes behind the packet in the same buffer (e.g. the terminal's next packet); they belong to neither decode.
+pub fn check_parse_trailing(en: &EnumEntry, tys: &[TypeEntry], owned: Option<(&str, &str)>, class: u8, instr: u8, body: &[u8], trailing: &[u8]) -> CheckResult {
+    let mut bytes = apdu_of(class, instr, body);
+    bytes.extend_from_slice(trailing);
+    let input = json!({"enum": en.name, "class": class, "instr": instr, "body": hex(body), "trailing": hex(trailing)});
     let got = guard(|| (en.parse)(&bytes)).map_err(|p| Violation::new("parse", format!("C15 enum={} kind=panic", en.name), format!("zvt_parse({}) panicked: {p}", hex(&bytes)), input.clone()))?;
     match owned {
         None => match got {
@@ -68,7 +73,7 @@ pub fn replay(check: &str, i: &Value) -> Option<CheckResult> {
         "parse" => {
             let (c, n) = (i.get("class")?.as_u64()? as u8, i.get("instr")?.as_u64()? as u8);
             let owned = table.iter().find(|(e, _)| *e == name)?.1.iter().find(|(cc, ii, _, _)| (*cc, *ii) == (c, n)).map(|(_, _, v, t)| (*v, *t));
-            check_parse(en, &tys, owned, c, n, &unhex(i.get("body")?.as_str()?))
+            check_parse_trailing(en, &tys, owned, c, n, &unhex(i.get("body")?.as_str()?), &unhex(i.get("trailing").and_then(|t| t.as_str()).unwrap_or("")))
         }
         _ => return None,
     })
@@ -132,6 +137,23 @@ pub fn run(tier: Tier) -> i32 {
                     if r.is_err() {
                         ctx.record(r, st);
                     }
+                    // the same packet with further bytes behind it in the buffer (the next packet, field-like bytes, random)
+                    if own.is_some() {
+                        let k = fnv(body) as usize;
+                        let rnd: Vec<u8> = (0..(k % 9)).map(|j| (k >> (j * 7)) as u8).collect();
+                        for tr in [&[0x19u8, 0x01][..], &[0x06, 0x0f, 0x00], &[0x04, 0xff, 0x01, 0x0b], &[0x06, 0x02, 0x27, 0x00], &rnd] {
+                            if tr.is_empty() {
+                                continue;
+                            }
+                            let r = check_parse_trailing(en, &tys, own, c, ins, body, tr);
+                            n += 1;
+                            nt += 1;
+                            st.class("owned-pair:bytes-behind-the-packet");
+                            if r.is_err() {
+                                ctx.record(r, st);
+                            }
+                        }
+                    }
                 }
             }
         }
@@ -141,7 +163,7 @@ pub fn run(tier: Tier) -> i32 {
     stats.exhaustive_parts = vec!["17 reply parsers x all 65 536 (class, instr) pairs, each with every prepared body".into()];
     ctx.finish(
         stats,
-        "enumeration: every reply enum x every (class, instr) pair x bodies {empty, canonical bodies of each variant's packet type, random}; plus inputs shorter than two bytes. Oracle from an independent enum -> control field table: foreign pair => Err; owned pair => identical to the variant's packet type decoding the same bytes. non-trivial = pair owned by the enum or sharing class or instr with an owned pair; distinct by (enum, pair, body) by construction",
+        "enumeration: every reply enum x every (class, instr) pair x bodies {empty, canonical bodies of each variant's packet type, random}, owned pairs also with further bytes behind the packet in the same buffer (a following packet, field-like bytes, random); plus inputs shorter than two bytes. Oracle from an independent enum -> control field table: foreign pair => Err; owned pair => identical to the variant's packet type decoding the same bytes. non-trivial = pair owned by the enum or sharing class or instr with an owned pair; distinct by (enum, pair, body) by construction",
         &["registry::enum_table() (DESIGN.md Appendix B) is the independent statement of each command's reply set"],
         true,
     )
